@@ -21,7 +21,7 @@ func init() {
 			":6667 / :6697 appended iff it had no port; (b) registration: the product nick/ident/name shapes x password x capability negotiation x tracking, for first, second and third connects of the same client (after welcomes that change the nick): " +
 			"the first wire lines must be [CAP LS]? [PASS p]? NICK <current nick> USER <ident> 12 * :<name>, once each, in this order; (c) PING: tokens from a hostile pool (spaces, colons, leading colon, empty-but-present, 400 bytes, lower-case verb, " +
 			"two parameters) interleaved with other traffic must each be answered by exactly PONG :<token>, in order; (d) client PINGs: in virtual time (testing/synctest bubble, go1.26.8) the instants of client PINGs over a span must be the " +
-			"multiples of PingFreq when it is positive and there must be none in a virtual hour when it is <= 0. PING tokens include trailing blanks, tabs, a lone blank and padded tokens. The server renames the client with a NICK line between connects (nobody calls Me()); clients are built through Client(NewConfig), SimpleClient (with and without ident/name) and Client(nil); a quarter of the cells reconnect from inside the DISCONNECTED handler. Half of the cells connect with ConnectTo (password handed over once); the application picks a nick through Config() before the third connect and Me() is compared after its welcome. Every tenth ping round starts with a PING at the head of 25 lines that need no answer, and then silence: its PONG must be on the wire without further stimulus. distinct_nontrivial = distinct configuration cells (spelling x SSL x dialer | nick/ident/name/pass/cap/tracking shape x connect ordinal | token class | PingFreq).",
+			"multiples of PingFreq when it is positive and there must be none in a virtual hour when it is <= 0. PING tokens include trailing blanks, tabs, a lone blank and padded tokens. The server renames the client with a NICK line between connects (nobody calls Me()); clients are built through Client(NewConfig), SimpleClient (with and without ident/name) and Client(nil); a quarter of the cells reconnect from inside the DISCONNECTED handler. Half of the cells connect with ConnectTo (password handed over once); the application picks a nick through Config() before the third connect and Me() is compared after its welcome. Every tenth ping round starts with a PING at the head of 25 lines that need no answer, and then silence: its PONG must be on the wire without further stimulus. A quarter of the negotiating cells also configure SASL (PASS is still owed); PING tokens include latin-1 bytes, bytes that are not UTF-8, a truncated multi-byte character and control bytes. distinct_nontrivial = distinct configuration cells (spelling x SSL x dialer | nick/ident/name/pass/cap/tracking shape x connect ordinal | token class | PingFreq).",
 		Assumptions: []string{
 			"in the dial grid an SSL dial is observed and then refused; the separate 'tls' batch completes real TLS handshakes against a server on the in-memory transport (certificate generated at run time); bare unbracketed IPv6 literals are ambiguous and not generated",
 			"virtual time: built with go1.26.8 instead of the repository's go1.23.5 (same source, different compiler)",
